@@ -6,7 +6,10 @@ use patch_flags::PatchFlags;
 use slot_flag::SlotFlag;
 use std::{borrow::Cow, collections::BTreeMap, mem};
 use swc_core::{
-    common::{comments::Comments, Mark, Span, Spanned, SyntaxContext, DUMMY_SP},
+    common::{
+        comments::{Comment, Comments},
+        BytePos, Mark, Span, Spanned, SyntaxContext, DUMMY_SP,
+    },
     ecma::{
         ast::*,
         atoms::Atom,
@@ -1190,8 +1193,13 @@ where
     }
 
     fn search_jsx_pragma(&mut self, span: Span) {
+        self.search_jsx_pragma_at(span.lo, true);
+    }
+
+    fn search_jsx_pragma_at(&mut self, pos: BytePos, leading: bool) {
         if let Some(comments) = &self.comments {
-            comments.with_leading(span.lo, |comments| {
+            let mut found = None;
+            let search = |comments: &[Comment]| {
                 // the annotation may sit on its own line of a multi-line (JSDoc) comment
                 let pragma = comments.iter().flat_map(|c| c.text.lines()).find_map(|line| {
                     let trimmed = line.trim();
@@ -1212,12 +1220,18 @@ where
                             })
                         })
                 });
-                if let Some(pragma) = pragma {
-                    self.pragma = Some(pragma.to_string());
-                    #[cfg(feature = "verif-trace")]
-                    verif::emit("pragma", &[("text", verif::V::S(pragma))]);
-                }
-            });
+                pragma.map(|pragma| pragma.to_string())
+            };
+            if leading {
+                comments.with_leading(pos, |comments| found = search(comments));
+            } else {
+                comments.with_trailing(pos, |comments| found = search(comments));
+            }
+            if let Some(pragma) = found {
+                #[cfg(feature = "verif-trace")]
+                verif::emit("pragma", &[("text", verif::V::S(&pragma))]);
+                self.pragma = Some(pragma);
+            }
         }
     }
 
@@ -1310,10 +1324,15 @@ where
 {
     fn visit_mut_module(&mut self, module: &mut Module) {
         self.search_jsx_pragma(module.span);
-        module
-            .body
-            .iter()
-            .for_each(|item| self.search_jsx_pragma(item.span()));
+        let last = module.body.len().saturating_sub(1);
+        module.body.iter().enumerate().for_each(|(index, item)| {
+            self.search_jsx_pragma(item.span());
+            // a comment written after a statement on the same line (`foo(); /* @jsx h */ bar()`)
+            // is attached to the end of that statement, but stands before the next one
+            if index < last {
+                self.search_jsx_pragma_at(item.span().hi, false);
+            }
+        });
         #[cfg(feature = "verif-trace")]
         verif::emit(
             "enter_module",
